@@ -3,12 +3,16 @@ package triage
 import (
 	"errors"
 	"fmt"
+	"sync"
+	"sync/atomic"
 	"testing"
 	"time"
 
 	"github.com/go-kid/ioc/app"
 	"github.com/go-kid/ioc/configure/loader"
+	"github.com/go-kid/ioc/container"
 	"github.com/go-kid/ioc/syslog"
+	"github.com/go-kid/ioc/util/sync2"
 )
 
 type I interface{ Act() }
@@ -149,4 +153,44 @@ func TestOptionalQualifierMismatch(t *testing.T) {
 	tt := &T{}
 	_, err, p := run(app.SetComponents(tt, &Q{"a", "g1"}, &Q{"b", "g2"}))
 	fmt.Printf("OptionalQualifierMismatch err=%v panic=%v X=%v\n", err, p, tt.X)
+}
+
+// --- D8 / D9 (run with -race) ---------------------------------------------------------
+
+type failingScanner struct{}
+
+func (f *failingScanner) PostProcessDefinitionRegistry(registry container.DefinitionRegistry, component any, componentName string) error {
+	return errors.New("scan failed for " + componentName)
+}
+
+func TestScanErrorsRace(t *testing.T) {
+	// every component fails in the scanning fan-out: N goroutines append to one slice
+	_, err, p := run(app.SetComponents(&failingScanner{}, &A{}, &B{}, &S{}, &Q{"q", "g"}))
+	fmt.Println("ScanErrorsRace err!=nil:", err != nil, "panic=", p, "(look for WARNING: DATA RACE above when run with -race)")
+}
+
+func TestLoadOrStoreFnBothWin(t *testing.T) {
+	both := 0
+	for i := 0; i < 2000; i++ {
+		m := sync2.New[string, int]()
+		var wg sync.WaitGroup
+		var wins int32
+		start := make(chan struct{})
+		for g := 0; g < 4; g++ {
+			wg.Add(1)
+			go func(g int) {
+				defer wg.Done()
+				<-start
+				if _, loaded := m.LoadOrStoreFn("k", func() int { return g }); !loaded {
+					atomic.AddInt32(&wins, 1)
+				}
+			}(g)
+		}
+		close(start)
+		wg.Wait()
+		if wins > 1 {
+			both++
+		}
+	}
+	fmt.Println("LoadOrStoreFnBothWin rounds with >1 winner:", both, "/2000")
 }
